@@ -4,6 +4,7 @@ from __future__ import annotations
 import asyncio
 import base64
 import io
+import os
 import itertools
 import warnings
 
@@ -259,6 +260,19 @@ def run_case(case: dict):
                     kw["data"] = BODY
                 elif body == "file":
                     kw["data"] = io.BytesIO(BODY)
+                elif body in ("diskfile_rb", "diskfile_text"):
+                    # a real file object (binary / text mode): re-sent from its start position on every 307/308 hop
+                    import tempfile
+
+                    tf = tempfile.NamedTemporaryFile(prefix="c17_", delete=False)
+                    tf.write(BODY)
+                    tf.close()
+                    out["_tmp"] = tf.name
+                    fobj = open(tf.name, "rb") if body == "diskfile_rb" else open(tf.name, "r", encoding="utf-8")
+                    out["_fobj"] = fobj
+                    kw["data"] = fobj
+                elif body == "stringio":
+                    kw["data"] = io.StringIO(BODY.decode())
                 elif body == "gen":
                     async def gen():
                         yield BODY[:7]
@@ -286,6 +300,13 @@ def run_case(case: dict):
             raise Violation("request-hangs", f"the redirected request never finishes; log={[(r['origin'], r['method'], r['target']) for r in w.log]}; case={case}")
         return w, out
     finally:
+        if out.get("_fobj") is not None:
+            out.pop("_fobj").close()
+        if out.get("_tmp"):
+            try:
+                os.unlink(out.pop("_tmp"))
+            except OSError:
+                pass
         asyncio.set_event_loop(None)
         loop.shutdown()
 
@@ -499,7 +520,7 @@ def sampled_cases(draw):
     secrets = draw(st.lists(st.sampled_from(["auth", "cookie_hdr", "proxy_auth", "cookies_kw"]), unique=True, max_size=4))
     start_creds = draw(st.booleans()) and "auth" not in secrets
     method = draw(st.sampled_from(["GET", "GET", "HEAD", "POST", "PUT", "PATCH", "DELETE"]))
-    body = draw(st.sampled_from(["none", "bytes", "file", "gen"])) if method != "HEAD" else "none"
+    body = draw(st.sampled_from(["none", "bytes", "file", "gen", "diskfile_rb", "diskfile_text", "stringio"])) if method != "HEAD" else "none"
     return {"start": draw(st.integers(0, len(ORIGINS) - 1)), "start_creds": start_creds, "chain": chain, "method": method, "body": body,
             "secrets": sorted(secrets), "jar": draw(st.booleans()), "max_redirects": draw(st.sampled_from([10, 10, 1, 2, 3, 4, 6]))}
 
